@@ -257,16 +257,18 @@ def impl_files(case):
     variants = [(v["id"], v["chrom"], v["pos"], v["alleles"]) for v in case["variants"]]
     data = [[(c[0], c[1], 1) for c in r] for r in case["data"]]
     pops = case["anc"] if case["anc_source"] == "POP" else None
+    # per-chromosome style names (g.chr1.*, with the accompanying g.chr1.bp) beside an unrelated older g.pgen / g.bp
+    GF.decoy_fileset(d / "g")
     if case["fmt_in"] == "pgen":
-        GF.write_pgen(d / "g", case["samples"], variants, data)
-        gfile = d / "g.pgen"
+        GF.write_pgen(d / "g.chr1", case["samples"], variants, data)
+        gfile = d / "g.chr1.pgen"
     else:
-        GF.write_vcf_text(d / "g.vcf", case["samples"], variants, data, pops=pops, contigs=["1", "2", "10"])
-        GF.compress_index(d / "g.vcf", d / "g.vcf.gz")
-        gfile = d / "g.vcf.gz"
+        GF.write_vcf_text(d / "g.chr1.vcf", case["samples"], variants, data, pops=pops, contigs=["1", "2", "10"])
+        GF.compress_index(d / "g.chr1.vcf", d / "g.chr1.vcf.gz")
+        gfile = d / "g.chr1.vcf.gz"
     if case["anc_source"] == "bp":
         # breakpoints stating, for every variant position, the same labels as `anc` (block end = variant position, last = MAX)
-        with open(d / "g.bp", "w") as f:
+        with open(d / "g.chr1.bp", "w") as f:
             for i in case["bp_order"]:
                 s = case["samples"][i]
                 for k in (0, 1):
@@ -276,17 +278,31 @@ def impl_files(case):
                         for n_, (j, v) in enumerate(vs):
                             end = v["pos"] if n_ < len(vs) - 1 else SD.MAX
                             f.write(f"{case['anc'][i][j][k]}\t{chrom}\t{end}\t{float(n_)}\n")
+    # the header in three shapes: an order line naming the ancestry column; a second extra field declared before it and the
+    # order line naming both in another order than they are declared; no order line at all (the declarations' order then is
+    # the columns' order) with the second field first
+    hdr = C.plumb(case, "hap-header", 3) if case["anc_source"] else 0
     with open(d / "h.hap", "w") as f:
         if case["anc_source"]:
-            f.write("#\torderH\tancestry\n#\tversion\t0.2.0\n#H\tancestry\ts\tLocal ancestry\n")
+            if hdr == 0:
+                f.write("#\torderH\tancestry\n#\tversion\t0.2.0\n#H\tancestry\ts\tLocal ancestry\n")
+            elif hdr == 1:
+                f.write("#\torderH\tancestry\tbeta\n#\tversion\t0.2.0\n#H\tbeta\t.2f\tEffect size\n#H\tancestry\ts\tLocal ancestry\n")
+            else:
+                f.write("#\tversion\t0.2.0\n#H\tbeta\t.2f\tEffect size\n#H\tancestry\ts\tLocal ancestry\n")
         for hi, h in enumerate(case["haps"]):
-            f.write("\t".join(["H", h["chrom"], str(h["start"]), str(h["end"]), h["id"]] + ([h["ancestry"]] if case["anc_source"] else [])) + "\n")
+            extras = [] if not case["anc_source"] else ([h["ancestry"]] if hdr == 0 else ([h["ancestry"], "0.25"] if hdr == 1 else ["0.25", h["ancestry"]]))
+            f.write("\t".join(["H", h["chrom"], str(h["start"]), str(h["end"]), h["id"]] + extras) + "\n")
             if case["repeat"] and hi == 0:
                 f.write("R\t1\t5\t9\tREP1\n")
         for h in case["haps"]:
             for vid, a in h["vars"]:
                 f.write(f"V\t{h['id']}\t1\t2\t{vid}\t{a}\n")
+    C.end_file(case, "h.hap", d / "h.hap")
+    C.end_file(case, "g.bp", d / "g.chr1.bp")
     out = d / ("out" + case["fmt_out"])
+    if C.plumb(case, "stale-out", 3) == 0:
+        C.stale_output(out, [str(out)[:-5] + e for e in (".pvar", ".psam")] if case["fmt_out"] == ".pgen" else [])
     hapfile, region = d / "h.hap", None
     if case.get("region"):
         from haptools.index import index_haps
